@@ -348,6 +348,26 @@ def _contains(s, target):
     return s is target or any(x is target for x in ast.walk(s))
 
 
+def _passed_guards(before):
+    """(test, polarity) facts that hold once the statements `before` have all completed normally"""
+    conds = []
+    for p in before:
+        if isinstance(p, ast.If):
+            if _always_jumps(p.body) and not _always_jumps(p.orelse):
+                conds.append((p.test, False))
+            elif p.orelse and _always_jumps(p.orelse) and not _always_jumps(p.body):
+                conds.append((p.test, True))
+            else:
+                # a guard nested one or more levels down (`if a: if b: continue`): the target is reached when NOT (a and b)
+                jc = _jump_condition([p])
+                if jc is not None and jc is not False and jc is not True:
+                    conds.append((jc, False))
+        elif isinstance(p, ast.Try) and p.handlers and all(_always_jumps(h.body) for h in p.handlers) and not p.finalbody:
+            # every handler leaves: what follows the try statement runs only after its body (and else block) ran to the end
+            conds.extend(_passed_guards(list(p.body) + list(p.orelse)))
+    return conds
+
+
 def reach_conds(stmts, target):
     """list of (test expr, polarity) that all hold when `target` (a statement or expression below `stmts`) executes, counted from the start of
     `stmts`: enclosing if-tests with their polarity, and the negations of preceding sibling guards whose body always jumps away
@@ -355,18 +375,7 @@ def reach_conds(stmts, target):
     for i, s in enumerate(stmts):
         if not _contains(s, target):
             continue
-        conds = []
-        for p in stmts[:i]:
-            if isinstance(p, ast.If):
-                if _always_jumps(p.body) and not _always_jumps(p.orelse):
-                    conds.append((p.test, False))
-                elif p.orelse and _always_jumps(p.orelse) and not _always_jumps(p.body):
-                    conds.append((p.test, True))
-                else:
-                    # a guard nested one or more levels down (`if a: if b: continue`): the target is reached when NOT (a and b)
-                    jc = _jump_condition([p])
-                    if jc is not None and jc is not False and jc is not True:
-                        conds.append((jc, False))
+        conds = _passed_guards(stmts[:i])
         if s is target:
             return conds
         if isinstance(s, ast.If):
